@@ -178,8 +178,11 @@ func (e *Enc) obligeG(guard Term, class, label string, props []string, cond Term
 	ob := &Obligation{Name: e.key + "/" + name, Class: class, Props: props, Goal: goal, Desc: desc,
 		Pos: e.posOf(pos), Expect: "unsat", FuncKey: e.key, Script: e.sc, cutDecls: len(e.sc.Decls), cutAsserts: len(e.sc.Asserts), enc: e}
 	e.obls = append(e.obls, ob)
-	// after checking, the fact may be assumed downstream (standard assert-then-assume)
-	e.sc.AssertNamed(goal, "assumed after obligation "+name)
+	// after checking, the fact may be assumed downstream (standard assert-then-assume); quantified
+	// facts are not (they only slow the solvers down), except explicit proof hints
+	if !strings.Contains(goal.S, "(forall ") && !strings.Contains(goal.S, "(exists ") || class == "assert" {
+		e.sc.AssertNamed(goal, "assumed after obligation "+name)
+	}
 }
 
 // obligeNoAssume is like oblige but does not add the fact to the background (used for COVER and
